@@ -735,7 +735,10 @@ def gen_plumbing(rng, ill):
             if k == "set":
                 out.append(["SSetPath", rng.choice(["d", "d", "dd"]), [[False, key()]], val()])
             elif k == "set2":
-                tgt = rng.choice([("dd", [[False, key([x for x, _ in dd["dict"]] if not ill else None)], [False, key()]]),
+                # keys of a nested assignment: expressions that cannot raise (the interpreter evaluates all keys before it descends,
+                # CPython descends first: with a raising inner key the exception class could differ - see ASSUMPTIONS)
+                safe = lambda pool=None: rng.choice([["EStr", rng.choice(pool or KEYS)], ["EAttr", ["EVar", "rec"], "name"]])
+                tgt = rng.choice([("dd", [[False, key([x for x, _ in dd["dict"]] if not ill else None)], [False, safe()]]),
                                   ("rec", [[True, ["EStr", "opts"]], [False, key()]]),
                                   ("rec", [[True, ["EStr", "inner"]], [True, ["EStr", "init"]]])])
                 out.append(["SSetPath", tgt[0], tgt[1], val()])
